@@ -188,6 +188,41 @@ func (c *c14) useAssertion(ch *kernel.Chooser) string {
 	return desc
 }
 
+// delegation: the statement's "(unless a custom subject check is configured)": a verifier built through the public API
+// (op.NewJWTProfileVerifier with op.SubjectCheck) admits iss != sub; the key must still be the issuer's and the
+// authenticated identity is still the issuer.
+func (c *c14) delegation(ch *kernel.Chooser) string {
+	w := c.w
+	now := time.Now()
+	iss := ch.Pick("jwt", "jwt", "web", "nobody")
+	sub := ch.Pick("jwt", "some-user", "web", "hyb")
+	signer := ch.Pick("jwt", "jwt", "jwt", "")
+	kid := ""
+	if ch.Bool(1, 5) {
+		kid = "other-kid"
+	}
+	p := mkAssertion(w, iss, sub, signer, kid, []string{w.Issuer}, now, now.Add(time.Hour))
+	v := op.NewJWTProfileVerifier(w.OP.Storage, w.Issuer, time.Hour, time.Second, op.SubjectCheck(func(*oidc.JWTTokenRequest) error { return nil }))
+	req, err := op.VerifyJWTAssertion(context.Background(), p.creds.Assertion, v)
+	// reference: as assertionValid, with the sub = iss conjunct dropped
+	cl := w.Store.Clients[iss]
+	valid := cl != nil && cl.Key != nil && p.assertKeyOf == iss && p.assertKid == cl.Key.KeyID
+	desc := fmt.Sprintf("delegating verifier: iss=%s sub=%s signed-by=%q kid=%q -> accepted=%v (model valid=%v)", iss, sub, signer, p.assertKid, err == nil, valid)
+	c.o.Probe("delegation-cases")
+	if err == nil {
+		c.o.Probe("delegation-accepted")
+		if !valid {
+			c.viol("invalid-assertion-accepted", "delegating-verifier", "%s: accepted although it is not signed with a key the storage holds for the issuer", desc)
+		}
+		if req.Issuer != iss {
+			c.viol("identity", "delegating-verifier", "%s: identity %q", desc, req.Issuer)
+		}
+	} else if valid {
+		c.viol("valid-delegation-rejected", "delegating-verifier", "%s: a valid delegated assertion (key of the issuer, other subject) was rejected: %v", desc, err)
+	}
+	return desc
+}
+
 func surfaceName(i int) string {
 	return []string{"jwt-bearer", "introspect", "revoke", "device_authorization", "refresh"}[i]
 }
@@ -403,8 +438,10 @@ func RunC14(t *testing.T, spec kernel.Spec) *kernel.Outcome {
 				return "setup: private_key_jwt disabled"
 			}
 			switch x := ch.Int(20); {
-			case x < 11:
+			case x < 9:
 				return c.useAssertion(ch)
+			case x < 11:
+				return c.delegation(ch)
 			case x < 14:
 				return c.helperInterop(ch)
 			case x < 19:
